@@ -65,12 +65,16 @@ type Event struct {
 }
 
 type Config struct {
-	Chooser      Chooser
-	MaxSteps     int            // scheduler steps per run; exceeding it gives VCapped (never a violation)
-	LoneLimit    int            // consecutive lone poll intervals that make a livelock verdict
-	MapBase      string         // base order handed to the chooser by MapKeys: asc (default) | desc | rot
-	YieldOnMake  bool           // treat channel creation as a preemption point
-	YieldOnMap   bool           // treat the start of a range-over-map loop as a preemption point
+	Chooser     Chooser
+	MaxSteps    int    // scheduler steps per run; exceeding it gives VCapped (never a violation)
+	LoneLimit   int    // consecutive lone poll intervals that make a livelock verdict
+	MapBase     string // base order handed to the chooser by MapKeys: asc (default) | desc | rot
+	YieldOnMake bool   // treat channel creation as a preemption point
+	YieldOnMap  bool   // treat the start of a range-over-map loop as a preemption point
+	// KeepGlobals: consecutive simulated runs are executions inside ONE process (mapsim): mutexes and
+	// sync.Map values that outlive a run keep their state. Default (dagsim): one run = one process,
+	// such values start every run fresh.
+	KeepGlobals  bool
 	ClockAdvance bool           // offer "advance the clock" as a scheduling option while goroutines are runnable
 	KeepTrace    bool           // keep the full event list (replays, samples)
 	WallLimit    time.Duration  // real-time watchdog for one run
